@@ -1,6 +1,5 @@
 from __future__ import annotations
 
-import re
 
 from .bv import BVV
 
@@ -102,7 +101,8 @@ def StrPrefixOf(prefix, input_string):
 
     :return:                        True if the input_string starts with prefix else False
     """
-    return re.match(r"^" + prefix.value, input_string.value) is not None
+    # (not a regular expression match: the prefix is a plain string, "a*" is not a prefix of "ba*")
+    return input_string.value.startswith(prefix.value)
 
 
 def StrSuffixOf(suffix, input_string):
@@ -114,7 +114,7 @@ def StrSuffixOf(suffix, input_string):
 
     :return :                       True if the input_string ends with suffix else False
     """
-    return re.match(r".*" + suffix.value + "$", input_string.value) is not None
+    return input_string.value.endswith(suffix.value)
 
 
 def StrIndexOf(input_string, substring, startIndex):
